@@ -38,14 +38,14 @@ import sys, os, tempfile, shutil, datetime
 drf = build.load_pkg()
 from digital_rf import list_drf as L
 kw, reverse = %r, %r
-SUBS = ['2020-01-01T00-00-00', '2020-01-01T01-00-00', '2020-01-01T02-00-00']; T0 = 1577836800
+SUBS = ['2001-09-09T01-00-00', '2001-09-09T02-00-00', '2001-09-09T03-00-00']; T0 = 999997200
 kind, gone, start, end = kw['kind'], kw['gone'], kw['start'], kw['end']
 present = [kw['p%%d' %% i] for i in range(4)]
 top = tempfile.mkdtemp(); ch = os.path.join(top, 'ch'); os.makedirs(ch)
 allf = []; k = 0
 for i, sd in enumerate(SUBS):
     if gone != i: os.makedirs(os.path.join(ch, sd))
-    for off in ((10, 20) if i == 0 else (10,)):
+    for off in ((2790, 2810) if i == 0 else (10,)):
         t = T0 + 3600 * i + off
         name = ('rf@%%d.000.h5' %% t) if kind == 0 else ('metadata@%%d.h5' %% t)
         if present[k] and gone != i:
